@@ -11,13 +11,16 @@
      Some false  numpy accepts, the model raises or parses differently. *)
 From Coq Require Import ZArith List Bool Lia Permutation Sorted.
 From Ctg Require Import Base Parse BaseFacts ParseFacts.
+From Ctg Require Import Net Einsum.
 Import ListNotations.
+Open Scope nat_scope.
 
-(* --- canonicalisation is an injective relabelling, applied consistently ------------------ *)
+(* --- canonicalisation is an injective relabelling, applied consistently, and preserves the VALUE --- *)
 (* canonicalize_inputs returns map f over the inputs and the output for ONE function f (the
    final ind_map), f is injective on every label it has seen, the k-th label seen receives
    get_symbol k, and when no output is given the computed output is f of the first-seen-once
-   labels of the ORIGINAL inputs (so computing the output commutes with the relabelling). *)
+   labels of the ORIGINAL inputs (so computing the output commutes with the relabelling).
+   The three theorems after it lift this to the mathematical einsum (einsum_spec of Einsum.v). *)
 Theorem C12_relabel_invariant : forall inputs output shapes sd ni no nsd m,
   canonicalize_inputs inputs output shapes sd = (ni, no, nsd, m) ->
   im_wf m /\
@@ -31,6 +34,34 @@ Theorem C12_relabel_invariant : forall inputs output shapes sd ni no nsd m,
   (forall x y, In x (map fst m) -> In y (map fst m) -> im_fun m x = im_fun m y -> x = y).
 Proof. exact canonicalize_relabels. Qed.
 Print Assumptions C12_relabel_invariant.
+
+(* VALUE invariance (Model/Einsum.v einsum_spec, the mathematical einsum of C01): for ANY injective
+   renaming f of the labels of a network (inputs, output, size-dictionary keys), the einsum of the
+   renamed network at an assignment e' equals the einsum of the original network at e' o f. *)
+Theorem C12_einsum_relabel_invariant : forall f n (arr : nat -> ptensor) e',
+  inj_on f (net_labels n) ->
+  einsum_spec (relabel_net f n) [] arr e' = einsum_spec n [] arr (fun j => e' (f j)).
+Proof. exact einsum_relabel_invariant. Qed.
+Print Assumptions C12_einsum_relabel_invariant.
+
+(* what canonicalize_inputs returns IS the renamed network (sizes included: from the given size_dict,
+   a Python dict, i.e. distinct keys -- or from the shapes), for the injective f = final ind_map *)
+Theorem C12_canonicalize_is_relabelled_network : forall ins out shapes sd ni no nsd m,
+  canonicalize_inputs ins out shapes sd = (ni, no, Some nsd, m) ->
+  (match sd with Some sdv => NoDup (map fst sdv) | None => True end) ->
+  mkNet ni no nsd = relabel_net (im_fun m) (original_net ins out shapes sd) /\
+  inj_on (im_fun m) (net_labels (original_net ins out shapes sd)).
+Proof. exact canonicalize_is_relabel_net. Qed.
+Print Assumptions C12_canonicalize_is_relabelled_network.
+
+(* hence: the value of the canonicalised contraction is the value of the contraction asked for *)
+Theorem C12_relabel_value_invariant : forall ins out shapes sd ni no nsd m (arr : nat -> ptensor) e',
+  canonicalize_inputs ins out shapes sd = (ni, no, Some nsd, m) ->
+  (match sd with Some sdv => NoDup (map fst sdv) | None => True end) ->
+  einsum_spec (mkNet ni no nsd) [] arr e' =
+  einsum_spec (original_net ins out shapes sd) [] arr (fun j => e' (im_fun m j)).
+Proof. exact canonicalize_value_invariant. Qed.
+Print Assumptions C12_relabel_value_invariant.
 
 Theorem C12_get_symbol_injective : forall i j, get_symbol i = get_symbol j -> i = j.
 Proof. exact get_symbol_inj. Qed.
@@ -139,44 +170,123 @@ Theorem C12_interleaved_output_ellipsis_only_refuted :
 Proof. exact interleaved_output_ellipsis_only_refuted. Qed.
 Print Assumptions C12_interleaved_output_ellipsis_only_refuted.
 
-(* --- model = NumpySpec: bounded exhaustive form (partial) ------------------------------------
-   FULL STATEMENTS (not proved for unbounded inputs):
-     ellipsis_expansion_matches_numpy / implicit_output_matches_numpy / interleaved_matches_numpy:
-       forall well-formed call a (letters only, no blanks, not output-only-ellipsis),
-         agrees_args_v fx a <> Some false
-   PROVED HERE: the same statement for ALL 18816 calls of a finite family (vm_compute): 1 or 2
+(* --- model = NumpySpec, GENERAL (string form) ----------------------------------------------
+   For EVERY string eq and EVERY list of shapes: if numpy's rules (np_parse) accept the call with
+   parse (nops, nout), then the front end of the code as it stands (blanks removed, output-only
+   ellipsis handled: fix flags true) parses it to exactly the same terms and output, the
+   specification's broadcast label LB k renamed to the k-th-from-the-right of the model's
+   ellipsis symbols E.  Covers any number of operands, any labels, ellipses anywhere with any
+   broadcast rank (right alignment), explicit and implicit output, blanks. *)
+Theorem C12_ellipsis_expansion_matches_numpy : forall eq shapes nops nout,
+  np_parse eq shapes = Some (nops, nout) ->
+  let E := model_ellipses_inds (strip_spaces eq) shapes in
+  parse_equation_ellipses_v true (strip_spaces eq) shapes = Some (map (map (rho E)) nops, map (rho E) nout).
+Proof. exact string_matches_numpy. Qed.
+Print Assumptions C12_ellipsis_expansion_matches_numpy.
+
+(* the same in the vocabulary of the check (K3): the verdict computed for a call is `Some true`
+   exactly when numpy accepts it, never `Some false` *)
+Theorem C12_string_form_agrees_with_numpy : forall fx eq shapes,
+  fx_spaces fx = true -> fx_outell fx = true ->
+  agrees_args_v fx (AStr eq shapes) = match np_parse eq shapes with Some _ => Some true | None => None end.
+Proof. exact string_agrees_with_numpy. Qed.
+Print Assumptions C12_string_form_agrees_with_numpy.
+
+(* ... and the renaming is injective on the labels of the call: the ellipsis symbols are pairwise
+   distinct and occur in no input term, so "equal up to rho" is "equal up to an injective renaming" *)
+Theorem C12_ellipsis_symbols_disjoint : forall eq shapes,
+  let E := model_ellipses_inds eq shapes in
+  NoDup E /\ forall s, In s E -> ~ In s (concat (split_char c_comma (hd [] (split_arrow eq)))).
+Proof. exact model_ellipses_inds_fresh. Qed.
+Print Assumptions C12_ellipsis_symbols_disjoint.
+
+Theorem C12_rho_injective : forall used E, NoDup E -> (forall s, In s E -> ~ In s used) ->
+  forall l1 l2, label_in used E l1 -> label_in used E l2 -> rho E l1 = rho E l2 -> l1 = l2.
+Proof. exact rho_injective. Qed.
+Print Assumptions C12_rho_injective.
+
+(* (1) implicit output: for every rendered left-hand side (letters, ellipses, commas),
+   find_output_str is numpy's rule -- the letters occurring exactly once, sorted by code point
+   (the dots never qualify); parse_equation_ellipses puts the ellipsis symbols in front of it *)
+Theorem C12_implicit_output_matches_numpy : forall lhs,
+  Forall tok_ok lhs -> Forall (fun t => match t with TArrow => False | _ => True end) lhs ->
+  find_output_str (unlex lhs) = once_sorted (letters_of lhs).
+Proof. exact find_output_str_unlex. Qed.
+Print Assumptions C12_implicit_output_matches_numpy.
+
+(* numpy's lexer is sound for the model: what numpy tokenises is, blanks removed, the rendering
+   of the tokens -- this is what lets the theorems above speak about ALL strings *)
+Theorem C12_lexer_sound : forall eq ts, np_lex eq = Some ts ->
+  strip_spaces eq = unlex ts /\ Forall tok_ok ts.
+Proof. exact np_lex_sound_all. Qed.
+Print Assumptions C12_lexer_sound.
+
+(* --- model = NumpySpec, GENERAL (interleaved form) ------------------------------------------
+   For EVERY interleaved call einsum(op0, sublist0, ..., [sublistout]) that numpy's rules accept
+   (integer labels 0..51, Ellipsis), with or without output sublist -- except the known class whose
+   ONLY Ellipsis is in the output sublist (finding interleaved-output-ellipsis-only) -- the code as it
+   stands builds an equation string and parses it to numpy's terms and output, letters renamed to the
+   model's own symbols (allocated by first appearance) and LB k to the model's ellipsis symbols.
+   This includes the now-fixed implicit output order (sorted by label, broadcast dimensions first). *)
+Theorem C12_interleaved_matches_numpy : forall ops out nops nout,
+  np_parse_inter ops out = Some (nops, nout) ->
+  (match out with Some o => In IE o -> In IE (concat (map snd ops)) | None => True end) ->
+  exists eq, convert_from_interleaved_v true (map snd ops) out = Some eq /\
+    let E := model_ellipses_inds eq (map fst ops) in
+    let r := rho_args (AInter ops out) E in
+    parse_equation_ellipses_v true eq (map fst ops) = Some (map (map r) nops, map r nout).
+Proof. exact inter_matches_numpy. Qed.
+Print Assumptions C12_interleaved_matches_numpy.
+
+Theorem C12_interleaved_form_agrees_with_numpy : forall fx ops out,
+  fx_inter fx = true -> fx_outell fx = true ->
+  (match out with Some o => In IE o -> In IE (concat (map snd ops)) | None => True end) ->
+  agrees_args_v fx (AInter ops out) = match np_parse_inter ops out with Some _ => Some true | None => None end.
+Proof. exact inter_agrees_with_numpy. Qed.
+Print Assumptions C12_interleaved_form_agrees_with_numpy.
+
+(* the renaming of the letters is injective: distinct labels of the call receive distinct symbols *)
+Theorem C12_interleaved_symbols_injective : forall inputs, exists c,
+  sm_wf (get_symbol_map inputs) c /\
+  (forall y, In y (map fst (get_symbol_map inputs)) <-> In y (concat inputs)) /\
+  (forall k1 k2, In (IL k1) (concat inputs) -> In (IL k2) (concat inputs) ->
+     sigma (get_symbol_map inputs) k1 = sigma (get_symbol_map inputs) k2 -> k1 = k2).
+Proof. exact get_symbol_map_injective. Qed.
+Print Assumptions C12_interleaved_symbols_injective.
+
+(* --- model = NumpySpec: bounded exhaustive sweeps, kept as INDEPENDENT evidence (vm_compute) ---
+   The general theorems above are proved by induction over token lists; the four sweeps below
+   evaluate the same comparison (agrees_args_v) on all 18816 calls of a finite family: 1 or 2
    operands, each `pre [...] post` with pre in {"", "b", "B", "bB"}, post in {"", "b", "a"}, the
-   ellipsis (if any) covering 0, 1 or 2 dimensions -- so ellipses at the start / middle / end,
-   different broadcast ranks (right alignment), repeated labels, upper/lower case ordering -- and
-   8 outputs (implicit, "", "b", "...", "...b", "B...", "a...b", "bB").  What is missing is the
-   induction over arbitrary strings; every generated call of a run is in addition judged by the
-   same function agrees_args_v inside Coq (correspondence K3 of the check). *)
-Theorem C12_ellipsis_expansion_matches_numpy_partial :
+   ellipsis (if any) covering 0, 1 or 2 dimensions, 8 outputs (implicit, "", "b", "...", "...b",
+   "B...", "a...b", "bB"), string and interleaved form, for the model of the originally pinned code
+   (no_fixes; the output-only-ellipsis class excluded) and of the code with the fixes (all_fixes). *)
+Theorem C12_sweep_string_pinned :
   forallb (fun c => output_only_ellipsis (fst c) (snd c) ||
                     not_refuted (agrees_args_v no_fixes (sweep_args_str (fst c) (snd c)))) sweep_calls = true.
 Proof. exact sweep_string_pinned. Qed.
-Print Assumptions C12_ellipsis_expansion_matches_numpy_partial.
+Print Assumptions C12_sweep_string_pinned.
 
-(* implicit outputs are part of the family (output = None): same sweep with all fixes, no exclusion *)
-Theorem C12_implicit_output_matches_numpy_partial :
+(* the code with the fixes: no exclusion *)
+Theorem C12_sweep_string_fixed :
   forallb (fun c => not_refuted (agrees_args_v all_fixes (sweep_args_str (fst c) (snd c)))) sweep_calls = true.
 Proof. exact sweep_string_fixed. Qed.
-Print Assumptions C12_implicit_output_matches_numpy_partial.
+Print Assumptions C12_sweep_string_fixed.
 
 (* interleaved form: true of the pinned code when the output sublist is given ... *)
-Theorem C12_interleaved_explicit_matches_numpy_partial :
+Theorem C12_sweep_interleaved_explicit_pinned :
   forallb (fun c => match snd c with None => true | Some _ =>
                       output_only_ellipsis (fst c) (snd c) ||
                       not_refuted (agrees_args_v no_fixes (sweep_args_inter (fst c) (snd c))) end) sweep_calls = true.
 Proof. exact sweep_inter_explicit_pinned. Qed.
-Print Assumptions C12_interleaved_explicit_matches_numpy_partial.
+Print Assumptions C12_sweep_interleaved_explicit_pinned.
 
 (* ... and of the code with the proposed fix also without it (implicit output sorted by label) *)
-Theorem C12_interleaved_matches_numpy_fixed_partial :
+Theorem C12_sweep_interleaved_fixed :
   forallb (fun c => output_only_ellipsis (fst c) (snd c) ||
                     not_refuted (agrees_args_v all_fixes (sweep_args_inter (fst c) (snd c)))) sweep_calls = true.
 Proof. exact sweep_inter_fixed. Qed.
-Print Assumptions C12_interleaved_matches_numpy_fixed_partial.
+Print Assumptions C12_sweep_interleaved_fixed.
 
 (* the sweeps are not vacuous: every call of the family that numpy accepts is agreed on *)
 Example C12_sweep_nonvacuous :
